@@ -99,13 +99,9 @@ Theorem c04_delete_refines : forall K V (cmp : K -> K -> comparison), OrderLaws 
   TreeInv cmp bt' /\ abs_tree bt' = SortedMap.remove cmp (abs_tree bt) k /\ old = SortedMap.get cmp (abs_tree bt) k.
 Proof. exact (@delete_refines_lemma). Qed.
 
-(* PARTIAL (explicit op coverage): programs made of every read query, insert, remove, pop_first, pop_last.
-   Full statement (not a theorem): the same for programs that also contain get_mut /
-   AccessGuardMut::insert, entry, insert_reserve, retain, retain_in, extract_if, extract_from_if
-   (their tree paths -- get_mut_helper, retain_in_bounds / CursorMut pending removals,
-   delete_leaf_entries, replace_leaf_children, RangeMut -- are not modelled; the property is decided
-   per run for them, see design.d/C04.md). *)
-Theorem c04_program_refines_partial : forall K V (cmp : K -> K -> comparison), OrderLaws cmp ->
+(* programs made of every read query, insert, remove, pop_first, pop_last (the operations of Mutator.v);
+   the program theorem over all proved writers is c04_program_refines_partial further down *)
+Theorem c04_program_refines_base : forall K V (cmp : K -> K -> comparison), OrderLaws cmp ->
   forall (ksize : K -> N) (vsize : V -> N) (fixed_k fixed_v : bool) (page_size : N)
          (sep : K -> K -> K) (inplace : list (K * V) -> K -> V -> bool),
   valid_sep cmp sep ->
@@ -292,6 +288,109 @@ Example c04_nonvacuous_shape :
   match sb_root ex_shape2 with Some t => (sheight t, ex_count t) | None => (O, (0, 0, 0)%N) end = (2%nat, (10, 2, 1)%N) /\
   sb_len ex_shape2 = 47%N /\
   tget key_cmp (erase_tree ex_shape2) (KBytes [7]%N) = Some (repeat 5%N 150).
+Proof. vm_compute. repeat split; reflexivity. Qed.
+
+(* ---- the remaining writers of the statement --------------------------------------------------- *)
+From RV Require Import Btree.Guard Btree.GuardP Btree.ShapeGuard Btree.ShapeGuardP
+  Btree.Scan Btree.RangeMut Btree.ScanTree Btree.ScanTreeP Btree.SpliceP Btree.SpliceTreeP Btree.ScanP Btree.RetainTreeP Btree.ProgramX.
+
+(* get_mut(k) followed by AccessGuardMut::insert(v) (in place, or the leaf rebuilt on a new page and the
+   parent pointer patched): the entry's value is replaced, nothing else changes; absent key: nothing happens *)
+Theorem c04_guard_set_refines : forall K V (cmp : K -> K -> comparison), OrderLaws cmp ->
+  forall (ksize : K -> N) (vsize : V -> N) (fixed_k fixed_v : bool) (page_size : N) (sep : K -> K -> K),
+  valid_sep cmp sep ->
+  forall (bt : @btree K V) k v, TreeInv cmp bt ->
+  let '(bt', old) := guard_set cmp bt k v in
+  TreeInv cmp bt' /\
+  abs_tree bt' = match SortedMap.get cmp (abs_tree bt) k with Some _ => SortedMap.insert cmp (abs_tree bt) k v | None => abs_tree bt end /\
+  old = SortedMap.get cmp (abs_tree bt) k.
+Proof. exact (@guard_set_refines_lemma). Qed.
+
+(* insert_reserve (+ the write through AccessGuardMutInPlace), get_mut with any number of guard writes, and
+   the entry API (or_insert, and_modify + or_insert, Occupied/Vacant insert, remove, remove_entry, get) *)
+Theorem c04_guard_ops_refine : forall K V (cmp : K -> K -> comparison), OrderLaws cmp ->
+  forall (ksize : K -> N) (vsize : V -> N) (fixed_k fixed_v : bool) (page_size : N) (sep : K -> K -> K),
+  valid_sep cmp sep ->
+  forall (inplace : list (K * V) -> K -> V -> bool) (blank : V -> V) (bt : @btree K V) (o : @gop K V), TreeInv cmp bt ->
+  let '(x, bt') := apply_gop cmp ksize vsize fixed_k fixed_v page_size sep inplace blank bt o in
+  TreeInv cmp bt' /\ (x, abs_tree bt') = spec_gop cmp (abs_tree bt) o.
+Proof. exact (@apply_gop_refines). Qed.
+
+(* the shape model of these operations (compared with the real tree) erases to Guard.v *)
+Theorem c04_shape_guard_ops_erase : forall K V (cmp : K -> K -> comparison)
+  (ksize : K -> N) (vsize : V -> N) (fixed_k fixed_v : bool) (page_size : N) (sep : K -> K -> K) (blank : V -> V)
+  (st : @sbtree K V) (o : @gop K V),
+  let '(x, st') := s_apply_gop cmp ksize vsize fixed_k fixed_v page_size sep blank st o in
+  apply_gop cmp ksize vsize fixed_k fixed_v page_size sep
+    (gop_oracle cmp ksize vsize fixed_k fixed_v page_size blank st o) blank (erase_tree st) o = (x, erase_tree st').
+Proof. exact (@erase_apply_gop). Qed.
+
+(* MutateHelper::delete_leaf_entries: a batch of indexes removed from leaf j, rebalanced along the path *)
+Theorem c04_flush_refines : forall K V (cmp : K -> K -> comparison), OrderLaws cmp ->
+  forall (ksize : K -> N) (vsize : V -> N) (fixed_k fixed_v : bool) (page_size : N) (sep : K -> K -> K),
+  valid_sep cmp sep ->
+  forall allow (bt : @btree K V) j idx, TreeInv cmp bt -> (j < length (bt_leaves bt))%nat ->
+  valid_idx (length (nth j (bt_leaves bt) [])) idx ->
+  TreeInv cmp (t_flush ksize vsize fixed_k fixed_v page_size sep allow bt j idx) /\
+  ScanTreeP.contents (t_flush ksize vsize fixed_k fixed_v page_size sep allow bt j idx) =
+    concat (firstn j (bt_leaves bt)) ++ remove_indexes (nth j (bt_leaves bt) []) idx ++ concat (skipn (S j) (bt_leaves bt)).
+Proof. exact (@t_flush_spec). Qed.
+
+(* MutateHelper::replace_leaf_children + build_replacement_leaves: a run of sibling leaves (first leaf has a
+   parent, every leaf of the run but the last has a following sibling) replaced by leaves packed from any
+   subsequence of its entries -- neighbour absorption, greedy packing, balanced tail, rebalancing upward *)
+Theorem c04_splice_refines : forall K V (cmp : K -> K -> comparison), OrderLaws cmp ->
+  forall (ksize : K -> N) (vsize : V -> N) (fixed_k fixed_v : bool) (page_size : N) (sep : K -> K -> K),
+  valid_sep cmp sep ->
+  forall (bt : @btree K V) a n es r, TreeInv cmp bt -> (1 <= n)%nat -> (a + n <= length (bt_leaves bt))%nat ->
+  t_has_parent bt a = true -> (forall x, (S x < n)%nat -> t_more_children bt (a + x)%nat DNext = true) ->
+  Subseq es (ScanP.run_leaves (@bt_leaves K V) bt a n) ->
+  N.of_nat (length (ScanP.run_leaves (@bt_leaves K V) bt a n)) = (N.of_nat (length es) + r)%N ->
+  TreeInv cmp (t_splice ksize vsize fixed_k fixed_v page_size sep bt a n es r) /\
+  ScanP.contents (@bt_leaves K V) (t_splice ksize vsize fixed_k fixed_v page_size sep bt a n es r) =
+    concat (firstn a (bt_leaves bt)) ++ es ++ concat (skipn (a + n)%nat (bt_leaves bt)).
+Proof. exact (@t_splice_ok). Qed.
+
+(* retain / retain_in: the CursorMut machine of Scan.v (per-leaf batches, direct flush or coalescing run,
+   reseek past the rewritten leaf, finish_pending_removals) over the logical tree *)
+Theorem c04_retain_refines : forall K V (cmp : K -> K -> comparison), OrderLaws cmp ->
+  forall (ksize : K -> N) (vsize : V -> N) (fixed_k fixed_v : bool) (page_size : N) (sep : K -> K -> K),
+  valid_sep cmp sep ->
+  forall (bt : @btree K V) lo hi p, TreeInv cmp bt ->
+  let bt' := t_retain_in cmp ksize vsize fixed_k fixed_v page_size sep bt lo hi p in
+  TreeInv cmp bt' /\ abs_tree bt' = SortedMap.retain_in cmp lo hi p (abs_tree bt).
+Proof. exact (@t_retain_refines). Qed.
+
+(* PARTIAL (explicit op coverage).  Covered constructors of ProgramX.xop:
+     XBase  (every read query, insert, remove, pop_first, pop_last),
+     XGuard (GReserve = insert_reserve, GGetMut = get_mut + AccessGuardMut::insert*, GEntryOrInsert, GEntryModify,
+             GEntryInsert, GEntryRemove, GEntryRemoveEntry, GEntryGet = the entry API),
+     XRetain, XRetainIn.
+   NOT covered (no constructor): extract_if / extract_from_if.  They are modelled (Btree/RangeMut.v over the same
+   store as retain) and validated per run: the model's tree equals the real tree after every operation and its
+   yields equal the specification's (design.d/C04.md).  Full statement (not a theorem): the same with extract scripts. *)
+Theorem c04_program_refines_partial : forall K V (cmp : K -> K -> comparison), OrderLaws cmp ->
+  forall (ksize : K -> N) (vsize : V -> N) (fixed_k fixed_v : bool) (page_size : N)
+         (sep : K -> K -> K) (inplace : list (K * V) -> K -> V -> bool) (blank : V -> V),
+  valid_sep cmp sep ->
+  forall (ops : list (@xop K V)) (bt : @btree K V), TreeInv cmp bt ->
+  let '(xs, bt') := run_x cmp ksize vsize fixed_k fixed_v page_size sep inplace blank ops bt in
+  TreeInv cmp bt' /\ (xs, abs_tree bt') = spec_run_x cmp ops (abs_tree bt).
+Proof. exact (@program_x_refines_lemma). Qed.
+
+(* non-vacuity: guard writes and retain_in on the tree built above (64-byte "page", height 2) *)
+Example c04_nonvacuous_guard :
+  let '(x, bt1) := apply_gop key_cmp key_size val_size true false 64%N ex_sep (fun _ _ _ => false) (fun v => v)
+                     ex_built (GGetMut (KU64 21) [[9; 9; 9; 9; 9; 9; 9; 9; 9; 9; 9; 9; 9; 9; 9; 9; 9; 9; 9; 9; 9; 9; 9; 9; 9; 9; 9; 9; 9; 9; 9; 9; 9; 9; 9; 9; 9; 9; 9; 9]%N; [7]%N]) in
+  x = OVal (Some [3; 3]%N) /\ tree_checkb key_cmp bt1 = true /\ tget key_cmp bt1 (KU64 21) = Some [7]%N /\ tlen bt1 = 20%N.
+Proof. vm_compute. repeat split; reflexivity. Qed.
+
+Definition ex_pred (k : key) (v : bytes) : bool := match k with KU64 n => N.even n | _ => true end.
+Example c04_nonvacuous_retain :
+  let bt1 := t_retain_in key_cmp key_size val_size true false 64%N ex_sep ex_built (Included (KU64 3)) (Excluded (KU64 20)) ex_pred in
+  tree_checkb key_cmp bt1 = true /\
+  abs_tree bt1 = SortedMap.retain_in key_cmp (Included (KU64 3)) (Excluded (KU64 20)) ex_pred (abs_tree ex_built) /\
+  tlen bt1 = 12%N /\ length (bt_leaves bt1) = 4%nat /\ length (bt_leaves ex_built) = 7%nat.
 Proof. vm_compute. repeat split; reflexivity. Qed.
 
 (* ------------------------------------------------------------------------------------------------
